@@ -148,9 +148,9 @@ def rule_b(ctx, cr):
         rv = st["rv"]
         if rv["k"] == "binop" and rv["op"] in ("Le", "Lt", "Ge", "Gt") and rv["lty"] == "usize":
             ld, rd = d.describe(rv["l"]), d.describe(rv["r"])
-            if "binary_op_precedence" in ld and rd == "arg:precedence":
+            if "binary_op_precedence" in ld and rd == "arg:3":
                 cmps.append((rv["op"], st["span"]))
-            elif "binary_op_precedence" in rd and ld == "arg:precedence":
+            elif "binary_op_precedence" in rd and ld == "arg:3":
                 cmps.append(({"Le": "Ge", "Lt": "Gt", "Ge": "Le", "Gt": "Lt"}[rv["op"]], st["span"]))
     ctx.check(len(cmps) == 1 and cmps[0][0] == "Le", "C02.b", "descend/loop-exit", d.span,
               "loop exits on op_prec <= precedence",
@@ -258,7 +258,7 @@ def rule_c(ctx, cr):
         ok = len(cs) == 1
         if ok:
             a0, a1 = f.describe(cs[0].args[0]), f.describe(cs[0].args[1])
-            ok = (a0, a1) == (("arg:rhs", "arg:lhs") if swapped else ("arg:lhs", "arg:rhs"))
+            ok = (a0, a1) == (("arg:2", "arg:1") if swapped else ("arg:1", "arg:2"))
         ctx.check(ok, "C02.c", "relational/%s/comparator" % name, f.span,
                   "%s(%s)" % (cmpf, "rhs, lhs" if swapped else "lhs, rhs"),
                   "%s does not call %s(%s)" % (name, cmpf, "rhs, lhs" if swapped else "lhs, rhs"))
@@ -420,7 +420,7 @@ def rule_e(ctx, cr):
         conv = [c for c in f.calls() if c.name == "<i16 as std::convert::TryFrom<mach::val::Val>>"
                 "::try_from"]
         src = sorted(f.describe(c.args[0]) for c in conv)
-        want = ["arg:lhs", "arg:rhs"] if nargs == 2 else ["arg:val"]
+        want = ["arg:1", "arg:2"] if nargs == 2 else ["arg:1"]
         built = {st["rv"]["variant"] for b, i, st in f.aggregates(VAL)}
         ctx.check(src == want and built == {"Integer"}, "C02.e", "%s/integer-only" % name, f.span,
                   "operands converted with i16::try_from, result Integer",
@@ -504,7 +504,7 @@ def function_rows(cr):
     for b, i, st in f.aggregates("mach::opcode::Opcode"):
         name = None
         for c in f.conds_at(b):
-            m = re.search(r"PartialEq for str>::eq\(arg:func_name,const:'([^']*)'\)", str(c[1])) \
+            m = re.search(r"PartialEq for str>::eq\(arg:1,const:'([^']*)'\)", str(c[1])) \
                 if c[0] == "eq" and c[2] is True else None
             if m:
                 name = m.group(1)
@@ -531,7 +531,7 @@ def function_table(ctx, cr, rid, want):
               rid, "functions/unique", f.span, "%d distinct names, %d distinct opcodes"
               % (len(set(names)), len(set(ops))),
               "the function table has duplicate or unreadable rows: %s"
-              % sorted(n for n in names if names.count(n) > 1 or n is None))
+              % sorted(str(n) for n in names if names.count(n) > 1 or n is None))
     for name, op, rng, span in rows:
         if name is None or not want(name):
             continue
